@@ -1083,8 +1083,18 @@ func runC20(c Case, tier string) (res CaseResult) {
 							continue // (refused: nothing was worked on)
 						}
 						words := (l.Uint64() + 31) / 32
-						if min := perWord*words + perByte*l.Uint64(); e.Cost < min {
-							res.Fail(Key("fee-below-data-fee", fmt.Sprintf("op%02x", lo.op)), fmt.Sprintf("instruction %#x working on %d bytes was charged %d gas, less than its data fee of %d (%d per word, %d per byte)", lo.op, l.Uint64(), e.Cost, min, perWord, perByte), hr.desc)
+						// (all these programs work at offset 0: the instruction also pays for growing memory from what it was to `words`)
+						memGas := func(w uint64) uint64 { return 3*w + w*w/512 }
+						var expansion uint64
+						if old := uint64(e.MemLen+31) / 32; words > old {
+							expansion = memGas(words) - memGas(old)
+						}
+						base, known := map[byte]uint64{h.KECCAK256: 30, h.CALLDATACOPY: 3, h.CODECOPY: 3, h.RETURNDATACOPY: 3, h.MCOPY: 3, h.CREATE2: 32000, h.CREATE: 32000, h.LOG0: 375}[lo.op]
+						if !known {
+							continue // (instructions whose operand is not the length of a memory range it pays for by the word)
+						}
+						if min := base + perWord*words + perByte*l.Uint64() + expansion; e.Cost < min {
+							res.Fail(Key("fee-below-data-fee", fmt.Sprintf("op%02x", lo.op)), fmt.Sprintf("instruction %#x working on %d bytes was charged %d gas, less than base %d + data fee (%d per word, %d per byte) + memory growth %d = %d", lo.op, l.Uint64(), e.Cost, base, perWord, perByte, expansion, min), hr.desc)
 						}
 						res.Count("data_fees_checked", 1)
 					}
